@@ -247,7 +247,13 @@ func ConnectAndAuthenticateWithConfig(ctx context.Context, config *ClientConfig)
 
 		// Perform authentication handshake
 		if config.Security != nil {
-			auth := security.NewAuthenticator(config.Security, client.stream)
+			// The handshake mutates its config (NewAuthenticator stores this
+			// connection's ephemeral ECDH public key in it), and callers share one
+			// SecurityConfig across concurrent connections, so give each connection
+			// a private shallow copy -- as server.ServeConn and the CCB code do.
+			// Sharing it is a data race and lets one handshake send another's key.
+			connSecurity := *config.Security
+			auth := security.NewAuthenticator(&connSecurity, client.stream)
 			negotiation, err := auth.ClientHandshake(ctx)
 
 			// Check if this is a session resumption error
